@@ -13,6 +13,7 @@ let rec parse_ops toks = match toks with
   | "peek" :: n :: r -> SPeek (nat_of_int (int_of_string n), true) :: parse_ops r
   | "peekn" :: n :: r -> SPeek (nat_of_int (int_of_string n), false) :: parse_ops r
   | "raw" :: h :: r -> SRaw (bytes_of_hex h) :: parse_ops r
+  | "wopen" :: h :: r -> SOpen (bytes_of_hex h) :: parse_ops r
   | "dump" :: r -> parse_ops r
   | t :: _ -> failwith ("bad op " ^ t)
 let hexm m = if m = [] then "E" else hex_of_bytes m
